@@ -263,7 +263,32 @@ def rule_tls_lifecycle(ctx):
     C08.rule_flow(R.Retag(ctx, "C08."))
 
 
+def rule_shared(ctx):
+    """bounds that rest on rules of other properties: the HTTP gate closes because the head is decoded independently of the body
+    (C05.R1); a worker's batch is emptied by every round (C10.R3), per-worker capacity is the configured one (W.R2)"""
+    from ..engine import report as R
+    from . import C05, C10
+    from . import _workers as W
+    C05.rule_R1(R.Retag(ctx, "C05."))
+    P = ctx.program
+    for crate, fam in (("huginn_net_http", "http"), ("huginn_net_tls", "tls")):
+        wl = [b for b in P.method("WorkerPool", "worker_loop") if b.crate == crate]
+        if len(wl) == 1:
+            S = T.Slicer(wl[0], P)
+            drains = Q.calls(wl[0], "::drain")
+            okd = False
+            for blk, t in drains:
+                a = Q.call_args(wl[0], S, blk, t)
+                r = T.strip(a[1]) if len(a) > 1 else None
+                if r and r[0] in ("agg", "const"):
+                    okd = True
+            ctx.check(okd, "C10.R3", fam + ":worker_loop:batch-drained", "the batch is emptied (drain(..)) by every round",
+                      "the batch is not drained: every packet a worker has received stays in memory and is processed again in each round", ctx.loc(wl[0]))
+        W.uniform_workers(ctx, P, crate, fam, "W.R2")
+
+
 def run(ctx):
+    rule_shared(ctx)
     rule_tls_lifecycle(ctx)
     rule_args(ctx)
     rule_R1(ctx)
